@@ -122,7 +122,9 @@ func genName(r *rand.Rand, first string) string {
 	return string(b)
 }
 
-var valuePieces = []string{"a", "b", "1", "0", " ", "  ", "=", "==", "#", "/", ":", "http://x.y/z?a=1", "tcp -h 127.0.0.1 -p 10015 -t 60000", "'", "\"", ">", "]", "é", "日本", "\\", ";", ",", "@", "%", "-", "+", "true", "3.14", "|", "(", ")", "{", "}", "$HOME", "${name}", "pa$$w0rd", "US$5", "$", "?", "!", "*", "~", "`"}
+var valuePieces = []string{"a", "b", "1", "0", " ", "  ", "=", "==", "#", "/", ":", "http://x.y/z?a=1", "tcp -h 127.0.0.1 -p 10015 -t 60000", "'", "\"", ">", "]", "é", "日本", "\\", ";", ",", "@", "%", "-", "+", "true", "3.14", "|", "(", ")", "{", "}", "$HOME", "${name}", "pa$$w0rd", "US$5", "$", "?", "!", "*", "~", "`",
+	// white space that is not a blank: part of the value also at its edges
+	"\u00a0", "\u3000", "\u0085", "\u00a0x\u00a0"}
 
 func genValue(r *rand.Rand) string {
 	switch r.Intn(12) {
@@ -209,6 +211,22 @@ func genDoc(r *rand.Rand, maxEntries int) (*doc, []typedEntry) {
 					}
 				case 1:
 					key = genName(r, nameAlpha) + " " + genName(r, nameAlpha) // inner blank
+				case 2:
+					if r.Intn(3) == 0 {
+						// a key ending in a no-break space is another key than the one without it
+						key = genName(r, nameAlpha)
+						if r.Intn(2) == 0 {
+							for k := range usedKeys {
+								if !strings.ContainsAny(k, " \u00a0") {
+									key = k
+									break
+								}
+							}
+						}
+						key += "\u00a0"
+					} else {
+						key = genName(r, nameAlpha)
+					}
 				default:
 					key = genName(r, nameAlpha)
 				}
@@ -668,7 +686,11 @@ func injectFaults(r *rand.Rand, d *doc) []fault {
 	// (g) a line longer than the line scanner's default token limit
 	if len(opens) > 0 {
 		pos := opens[r.Intn(len(opens))] + 1
-		long := "longkey=" + strings.Repeat("x", 70000)
+		n := 70000
+		if r.Intn(40) == 0 {
+			n = []int{1<<20 - 8, 1 << 20, 1<<20 + 1, 3 << 20, 65528, 65536}[r.Intn(6)] // "longkey=" is 8 bytes
+		}
+		long := "longkey=" + strings.Repeat("x", n)
 		nl := append(append(append([]docLine(nil), d.lines[:pos]...), docLine{text: long, kind: 1}), d.lines[pos:]...)
 		out = append(out, fault{kind: "very-long-line", text: join(nl), root: rebuild(nl)})
 	}
